@@ -32,6 +32,7 @@ Guard(s, i) ==
     [] op.k = "addcl" -> op.id \in NamesOf(s)
     [] op.k \in {"settag", "deltag"} -> op.id \in NamesOf(s)
     [] op.k = "flush" -> s.queue # <<>>
+    [] op.k = "hadd" -> TRUE
     [] op.k = "unused" -> TRUE
     [] op.k = "validate" -> s.lines # <<>>
     [] op.k \in {"rsc", "rsl"} -> s.lines # <<>>
